@@ -60,7 +60,9 @@ pub fn gen_admin(rng: &mut Rng, thorough: bool) -> Vec<String> {
         ops.push("rawhash".into());
         let msg = if r < 30 {
             let code = if rng.chance(1, 8) { 9 } else { rng.range(1, ncodes) };
-            let script = match rng.below(4) {
+            let script = match rng.below(5) {
+                // a zero-length migrate message: the migration fails (nothing to deserialise), code id and storage stay
+                4 => "~".to_string(),
                 0 => "((w 6d6967 01) (attr migrated yes))".to_string(),
                 1 => "((rd 6b) (rng ~ ~ asc))".to_string(),
                 2 => "((fail))".to_string(),
